@@ -7,6 +7,7 @@ package sftp
 
 import (
 	"fmt"
+	"io"
 	"sync"
 	"time"
 )
@@ -39,6 +40,8 @@ type vfSrvCfg struct {
 	AllocOptRS RequestServerOption
 	// PacketCount: the server's packet counter before Serve starts (a session that has already handled that many packets)
 	PacketCount uint32
+	// Debug (os-backed server): WithDebug(Debug)
+	Debug io.Writer
 	// BeforeServe, if set, runs after the server value has been constructed and before Serve is started
 	BeforeServe func()
 }
@@ -75,6 +78,9 @@ func vfServe(cfg vfSrvCfg, e *vfEnd) (*vfSrv, error) {
 		}
 		if cfg.MaxTx != 0 {
 			opts = append(opts, WithMaxTxPacket(cfg.MaxTx))
+		}
+		if cfg.Debug != nil {
+			opts = append(opts, WithDebug(cfg.Debug))
 		}
 		srv, err := NewServer(e, opts...)
 		if err != nil {
@@ -364,4 +370,17 @@ func (s *vfRawSession) End(limit time.Duration) string {
 	s.cEnd.Close()
 	<-s.R.rdone
 	return ""
+}
+
+// vfSink is a writer for diagnostics nobody reads (safe for concurrent use, counts the bytes).
+type vfSink struct {
+	mu sync.Mutex
+	n  int64
+}
+
+func (s *vfSink) Write(p []byte) (int, error) {
+	s.mu.Lock()
+	s.n += int64(len(p))
+	s.mu.Unlock()
+	return len(p), nil
 }
